@@ -1,5 +1,6 @@
 import Orca.Lemmas.SpecialFlat
 import Orca.Lemmas.StackSpec
+import Orca.Lemmas.ApiPlan
 /-!
 # C22 — special-mode injections are never silently lost
 
@@ -158,6 +159,53 @@ example :
       = some ["block", "E1", "B", "if", "c", "X2", "else", "E2", "d", "X3", "end", "X1", "end", "A1", "end"]
     ∧ (lower { body := body, hasSpecial := true }).1
       = ["block", "E1", "B", "if", "c", "X2", "else", "E2", "d", "X3", "end", "X1", "end", "A1", "end"] := by
+  decide
+
+/-! ### every plan: the complete machine -/
+
+/-- **The whole of `resolve_special_instrumentation` is a stack machine.** For every function body and every plan built from `before` /
+    `after` code anywhere, block-entry / block-exit / semantic-after probes and block alternates on any constructs, semantic-after
+    probes on any branches (the flag scheme: a fresh i32 local set in front of the branch and cleared behind it, the probe guarded by it
+    behind the `end` of every construct the branch can leave to) and function entry / exit code — any number of each, in any
+    combination —, the encoded body is what the machine `specRunF` (Lemmas/StackFull.lean) computes, and the lowering adds exactly the
+    flag locals the machine counts. Only instruction-level alternates are outside. -/
+theorem c22_resolver_is_the_complete_machine (f : Func) (hsp : f.hasSpecial = true) (hp : ∀ x ∈ f.body, PlainF x) (out : List Tok)
+    (nlf : Nat) (hs : specRunF (f.body.length - 1) (entryToks f) f.exit 0 [{}] none f.nlocals f.body = some (out, nlf)) :
+    lower f = (out, f.added + (nlf - f.nlocals)) :=
+  lower_eq_specF f hsp hp out nlf hs
+
+/-- **…from the API down**: any parsed function, any sequence of injection-API calls that does not select the instruction-level
+    `alternate` mode — the API itself keeps every plan inside the machine's scope (it panics on what would leave it), so what is
+    encoded is what the machine says. -/
+theorem c22_every_api_plan_lowers_as_the_machine (f0 f : Func) (ops : List ApiOp) (h0 : ∀ x ∈ f0.body, Pristine x)
+    (hops : ∀ op ∈ ops, op.noAlt = true) (ha : applyAll f0 ops = some f) (hsp : f.hasSpecial = true) (out : List Tok) (nlf : Nat)
+    (hs : specRunF (f.body.length - 1) (entryToks f) f.exit 0 [{}] none f.nlocals f.body = some (out, nlf)) :
+    lower f = (out, f.added + (nlf - f.nlocals)) :=
+  api_plan_lowers_as_machine f0 f ops h0 hops ha hsp out nlf hs
+
+/-- **no function-level probe is lost, whatever else the plan contains** -/
+theorem c22_no_function_level_probe_is_lost (f : Func) (hsp : f.hasSpecial = true) (hp : ∀ x ∈ f.body, PlainF x) (out : List Tok)
+    (nlf : Nat) (hne : f.body ≠ [])
+    (hs : specRunF (f.body.length - 1) (entryToks f) f.exit 0 [{}] none f.nlocals f.body = some (out, nlf)) :
+    (∀ t ∈ f.entry, t ∈ (lower f).1) ∧ (∀ t ∈ f.exit, t ∈ (lower f).1) :=
+  lower_keeps_fn f hsp hp out nlf hne hs
+
+/-! non-vacuity (decided): entry and exit code, a block with entry and semantic-after probes, a loop replaced by a block alternate, a
+    `br_if` with a semantic-after probe (flag local 3), a `return` -/
+set_option maxRecDepth 20000 in
+example :
+    let body : List Instr :=
+      [{ mkI "block" .block with blockEntry := ["E1"], semAfter := ["A1"] },
+       { mkI "loop" .loop with blockAlt := some ["R"] }, { mkI "x" .other with before := ["Bx"] }, mkI "end" .end_,
+       { mkI "br_if 0" (.brIf 0) with semAfter := ["S"] },
+       mkI "return" .exitLike,
+       mkI "end" .end_, mkI "end" .end_]
+    let f : Func := { body := body, hasSpecial := true, entry := ["EN"], exit := ["EX"], nlocals := 3 }
+    specRunF 7 (entryToks f) f.exit 0 [{}] none 3 body
+      = some (["EN", "block:functype", "block", "E1", "R", "Bx", "i32.const:1", "local.set:3", "br_if 0", "i32.const:0", "local.set:3", "S",
+               "EX", "return", "end", "local.get:3", "if", "S", "end", "A1", "end", "EX", "end"], 4)
+    ∧ lower f = (["EN", "block:functype", "block", "E1", "R", "Bx", "i32.const:1", "local.set:3", "br_if 0", "i32.const:0", "local.set:3", "S",
+               "EX", "return", "end", "local.get:3", "if", "S", "end", "A1", "end", "EX", "end"], 1) := by
   decide
 
 end Orca.Lower
